@@ -25,7 +25,9 @@ Init == \E pr \in Progs, im \in InitMaps :
            /\ s = ConcInit(WalN, im, Live(im) \cup (IF WithCleanup THEN {"C"} ELSE {}), 3,
                            IF WithCleanup THEN <<"C">> ELSE <<>>, pr)
 
-Step(t) == Enabled(s, t) /\ s' = StepT(s, t) /\ hist' = [hist EXCEPT !.sched = Append(@, t)]
+\* (the in-memory apply M:apply is no scheduling step of the real threads - there is no yield point in front of it -, so it
+\*  is not part of the recorded schedule)
+Step(t) == Enabled(s, t) /\ s' = StepT(s, t) /\ hist' = IF s.th[t].pc = "M:apply" THEN hist ELSE [hist EXCEPT !.sched = Append(@, t)]
 QueueW(t) == CanQueue(s, t) /\ s' = Queue(s, t) /\ hist' = [hist EXCEPT !.sched = Append(@, 0 - t)]
 Next == (\E t \in Threads(s) : Step(t) \/ QueueW(t)) \/ (AllDone(s) /\ UNCHANGED <<s, hist>>)
 Spec == Init /\ [][Next]_<<s, hist>>
